@@ -36,13 +36,14 @@ theorem hintPayloads_pos (gm : GDir) : ∀ d ∈ hintPayloads gm, 0 < d.size := 
   exact size_encodeHint_pos _ _
 
 theorem scan_hint (gm : GDir) :
-    scan C 0 (hintBytes gm) = { recs := (hintPayloads gm).zip (posAll C 0 ByteArray.empty (hintPayloads gm)),
-                                validEnd := (hintBytes gm).size, ok := true } :=
-  scan_build C 0 (hintPayloads gm) (hintPayloads_pos gm)
+    scan C false 0 (hintBytes gm)
+      = { recs := (hintPayloads gm).zip (posAll C 0 ByteArray.empty (hintPayloads gm)),
+          validEnd := (hintBytes gm).size, ok := true } :=
+  scan_build C false 0 (hintPayloads gm) (hintPayloads_pos gm)
 
 /-- decoding the hint file yields, in order, exactly `(key, newPos)` of the merged records -/
 theorem decode_hint (gm : GDir) (hF : HintFits gm) :
-    (scan C 0 (hintBytes gm)).recs.map (fun (x : ByteArray × Pos) => decodeHint x.1)
+    (scan C false 0 (hintBytes gm)).recs.map (fun (x : ByteArray × Pos) => decodeHint x.1)
       = (logOf gm).map (fun x => some (x.1.key, x.2)) := by
   rw [scan_hint]
   simp only []
